@@ -5,7 +5,7 @@ from .. import common, gen, pool, pipefam, readerfam
 RULE = ("histories of loads of the same result files through DensityData(...), verify_h5_cache and the two directory-level constructors: "
         "exhaustive sequences up to length 3 (quick: 2) over the four constructors x strand mixtures, plus histories whose first load is "
         "killed (forked child, os._exit) before the copy / mid-copy / after the copy / after j exchanged genes / before publishing, with "
-        "and without an HDF5 flush, or interrupted by an exception (Ctrl-C) at the j-th gene of the swap loop, followed by 1-2 loads; plus two loads of two different files of one directory interleaved (4 orders of their copy / publish steps) followed by loads of both; every completed load is compared column by column with the raw file and with "
+        "and without an HDF5 flush, or interrupted by an exception (Ctrl-C) at the j-th gene of the swap loop, followed by 1-2 loads; plus two loads of two different files of one directory interleaved (5 orders of their start / copy / publish steps) followed by loads of both; every completed load is compared column by column with the raw file and with "
         "the model; non-trivial = history with >= 2 loads or a crash, and a minus-strand gene; distinct = (case, history)")
 HOWS = ["ctor", "verify", "dir", "regex"]
 COQ_HOW = {"ctor": "ByCtor", "verify": "ByVerify", "dir": "ByVerify", "regex": "ByCtor"}
@@ -106,8 +106,12 @@ def run(chk):
     chk.oblige("correspondence model = implementation (values served by every completed load)", ndiff == 0, json.dumps(first)[:2500] if first else "")
     # two loads of two DIFFERENT result files of one directory, interleaved at the points where each makes its copy and
     # publishes it: afterwards every file must still serve its own chromosome's view (or raise)
-    ORDERS = [[[0, "copied"], [0, "publish"], [1, "copied"], [1, "publish"]], [[0, "copied"], [1, "copied"], [0, "publish"], [1, "publish"]],
-              [[0, "copied"], [1, "copied"], [1, "publish"], [0, "publish"]], [[1, "copied"], [0, "copied"], [0, "publish"], [1, "publish"]]]
+    P, Q = 0, 1
+    ORDERS = [[[P, "start"], [P, "copied"], [P, "publish"], [Q, "start"], [Q, "copied"], [Q, "publish"]],
+              [[P, "start"], [P, "copied"], [Q, "start"], [Q, "copied"], [P, "publish"], [Q, "publish"]],
+              [[P, "start"], [Q, "start"], [P, "copied"], [Q, "copied"], [Q, "publish"], [P, "publish"]],
+              [[Q, "start"], [P, "start"], [Q, "copied"], [P, "copied"], [P, "publish"], [Q, "publish"]],
+              [[P, "start"], [P, "copied"], [Q, "start"], [P, "publish"], [Q, "copied"], [Q, "publish"]]]
     isessions = []
     for i in range(1 if chk.tier == "quick" else 4):
         c2 = readerfam.strand_case(r, "mixed", max_chrom=2, min_chrom=2)
